@@ -326,7 +326,9 @@ def ndarray_case(draw, with_stride=False):
 def roundtrip_case(draw, big=False):
     if draw(st.integers(0, 4)) == 0:
         return draw(ndarray_case())
-    return draw(ragged_case(min_rows=1, big=big))
+    case = draw(ragged_case(min_rows=1, big=big))
+    case["pre_append"] = draw(st.sampled_from([None, None, 1, 2, 5]))
+    return case
 
 
 @st.composite
@@ -362,11 +364,15 @@ def single_case(draw, big=False):
 
 @st.composite
 def striped_case(draw, big=False):
+    launcher = draw(st.sampled_from([None, None, 2, 3, 4]))
     if draw(st.integers(0, 5)) == 0:
         case = draw(ndarray_case())
         case["stride"] = 1
+        case["launcher"] = launcher
         return case
-    return draw(ragged_case(min_rows=2, big=big, with_stride=True))
+    case = draw(ragged_case(min_rows=2, big=big, with_stride=True))
+    case["launcher"] = launcher
+    return case
 
 
 # --------------------------------------------------------------------------
@@ -390,7 +396,16 @@ def saved(case, d):
         obj = x
     else:
         rows = make_rows(case)
-        obj = build_ragged(case, rows)
+        k_pre = case.get("pre_append")
+        if k_pre and len(rows) >= 2 and not case["elem"] and len(set(len(r) for r in rows)) > 1:
+            # the array is not fresh: it was built from its first rows, looked at (element, column slice, starts), and
+            # the remaining rows were appended before it is saved
+            cut = max(1, min(len(rows) - 1, k_pre))
+            obj = ra.RaggedArray([r.copy() for r in rows[:cut]])
+            _ = obj[0, 0], obj.starts, obj[:, :1]
+            obj.append(ra.RaggedArray([r.copy() for r in rows[cut:]]))
+        else:
+            obj = build_ragged(case, rows)
     ra.save(path, obj, compression_level=case["complevel"], tag=case["tag"])
     return path, rows
 
@@ -534,12 +549,41 @@ def run_keys(case):
         shutil.rmtree(d, ignore_errors=True)
 
 
+LAUNCHER_ENVS = [None, None,
+                 {"SLURM_NTASKS": "4", "SLURM_PROCID": "1", "SLURM_NPROCS": "4"},
+                 {"OMPI_COMM_WORLD_SIZE": "3", "OMPI_COMM_WORLD_RANK": "2"},
+                 {"PMI_SIZE": "2", "PMI_RANK": "1", "PMIX_RANK": "1"}]
+
+
+class launcher_env:
+    """Environment variables a job scheduler / MPI launcher leaves behind (a serial analysis step run inside an
+    allocation): without an MPI library this process is the whole world (rank 0 of 1) whatever they say."""
+
+    def __init__(self, k):
+        self.env = LAUNCHER_ENVS[k % len(LAUNCHER_ENVS)] if k is not None else None
+        self.saved = {}
+
+    def __enter__(self):
+        for k_, v in (self.env or {}).items():
+            self.saved[k_] = os.environ.get(k_)
+            os.environ[k_] = v
+        return self
+
+    def __exit__(self, *a):
+        for k_, v in self.saved.items():
+            if v is None:
+                os.environ.pop(k_, None)
+            else:
+                os.environ[k_] = v
+
+
 def run_striped_h5(case):
     d = mktmp()
     try:
         path, rows = saved(case, d)
         s = case["stride"]
-        gl, data = ens_mpi.io.load_h5_as_striped(path, stride=s)
+        with launcher_env(case.get("launcher")):
+            gl, data = ens_mpi.io.load_h5_as_striped(path, stride=s)
         want = np.concatenate([r[::s] for r in rows])
         require(isinstance(data, np.ndarray), "load_h5_as_striped: data is not an ndarray", got=type(data).__name__)
         require(bits(data, want), "load_h5_as_striped: data differ from the concatenated strided rows",
@@ -863,7 +907,8 @@ def npy_case(draw):
     tail = pick(draw, [[], [3], [4, 3], [1]])
     return {"rows": [spread(draw, 1, 20, 6 + 3 * i) for i in range(n_files)], "tail": tail,
             "dtype": draw(st.sampled_from(DTYPES)), "seed": draw(st.integers(0, 2 ** 31 - 1)),
-            "stride": pick(draw, [2, 1, 3, 4, 7, 1, 21])}
+            "stride": pick(draw, [2, 1, 3, 4, 7, 1, 21]), "order": draw(st.sampled_from(["C", "C", "F", "mixed"])),
+            "launcher": draw(st.sampled_from([None, None, 2, 3, 4]))}
 
 
 def run_striped_npy(case):
@@ -873,12 +918,15 @@ def run_striped_npy(case):
         arrs, files = [], []
         for i, n in enumerate(case["rows"]):
             x = values(rng, case["dtype"], (n,) + tuple(case["tail"]))
+            if case.get("order", "C") == "F" or (case.get("order") == "mixed" and i % 2):
+                x = np.asfortranarray(x)          # a column-major array on disk (np.save records fortran_order)
             f = os.path.join(d, "x%02d.npy" % i)
             np.save(f, x)
             arrs.append(x)
             files.append(f)
         s = case["stride"]
-        gl, data = ens_mpi.io.load_npy_as_striped(files, stride=s)
+        with launcher_env(case.get("launcher")):
+            gl, data = ens_mpi.io.load_npy_as_striped(files, stride=s)
         want = np.concatenate([x[::s] for x in arrs])
         require(isinstance(data, np.ndarray) and bits(data, want),
                 "load_npy_as_striped: data differ from the concatenated strided arrays", got=describe(data),
@@ -888,7 +936,8 @@ def run_striped_npy(case):
                     want=case["rows"])
         nt = len(arrs) >= 2 and s >= 2 and any(n % s for n in case["rows"]) and any(n > s for n in case["rows"])
         return Info(nt, ["files=%d" % len(arrs), "stride=%s" % (s if s <= 3 else "4+"), "dtype=" + case["dtype"],
-                         "ndim=%d" % (1 + len(case["tail"]))])
+                         "ndim=%d" % (1 + len(case["tail"])), "order=" + case.get("order", "C"),
+                         "launcher_env=%s" % (case.get("launcher") is not None)])
     finally:
         shutil.rmtree(d, ignore_errors=True)
 
